@@ -34,6 +34,18 @@ type Obligation struct {
 type HeapInfo struct {
 	Name string
 	Sort Sort
+	Typ  types.Type // Go type of the values held (when known)
+	Kind string     // field ptr elem
+}
+
+// noteHeapType records the Go type of the values a heap holds, so that the
+// entry state can state what the type system guarantees about them.
+func (vc *VC) noteHeapType(name string, typ types.Type, kind string) {
+	if info := vc.heapInfo[name]; info != nil && info.Typ == nil && typ != nil {
+		info.Typ = typ
+		info.Kind = kind
+		vc.newHeaps = true
+	}
 }
 
 // State is the symbolic store at one program point.
@@ -78,6 +90,7 @@ type VC struct {
 	entry     *State
 	errs      []string
 	errGlobals map[string]bool
+	muted     bool // inside a Go function evaluated for a contract: no obligations
 	qfacts    []*QFact
 	witnesses []*Witness
 	deltas    []Term
@@ -128,7 +141,7 @@ func (vc *VC) declare(key, decl string) {
 }
 
 func (vc *VC) oblige(kind, label, site string, guard, goal Term, src string) *Obligation {
-	if goal.S == "true" {
+	if goal.S == "true" || vc.muted {
 		return nil
 	}
 	vc.kindCount[kind+":"+site]++
@@ -327,6 +340,12 @@ func (vc *VC) havocAllHeaps(st *State) {
 		if vc.errGlobals[n] {
 			continue
 		}
+		if vc.specs.isImmutableHeap(n) {
+			// declared immutable: unknown callees are assumed not to write
+			// fields of this type (listed assumption)
+			vc.assumes["objects of the types declared immutable in the contract files are not written by unknown (dynamic / interface / external) callees"] = true
+			continue
+		}
 		vc.havocHeap(st, n)
 	}
 	vc.bumpWatermark(st)
@@ -378,9 +397,15 @@ func (vc *VC) rootLoad(st *State, l *Loc) Term {
 		}
 		return t
 	case "field", "ptr":
-		return sel(vc.heap(st, l.heap, l.hsort), l.ref)
+		h := vc.heap(st, l.heap, l.hsort)
+		if _, isArr := l.root.Underlying().(*types.Array); !isArr {
+			vc.noteHeapType(l.heap, l.root, l.kind)
+		}
+		return sel(h, l.ref)
 	case "elem":
-		return sel(sel(vc.heap(st, l.heap, l.hsort), sBase(l.slice)), add(sOff(l.slice), l.idx))
+		h := vc.heap(st, l.heap, l.hsort)
+		vc.noteHeapType(l.heap, l.root, "elem")
+		return sel(sel(h, sBase(l.slice)), add(sOff(l.slice), l.idx))
 	case "global":
 		return vc.heap(st, l.heap, l.hsort)
 	}
